@@ -192,6 +192,7 @@ def debug_names(text, fname):
 def sym_inputs(fn, names):
     init = []
     order = []
+    ranges = []
     for loc in fn.params:
         ty = fn.locals[loc]
         lts = mir.leaf_types(ty)
@@ -205,11 +206,17 @@ def sym_inputs(fn, names):
                 v = var(nm, 'Bool')
             elif lt in mir.INT_BITS:
                 v = var(nm, 'Int')
+                b = mir.INT_BITS[lt]
+                if lt[0] == 'u':
+                    ranges.append(band(cmp('>=', v, 0), cmp('<=', v, (1 << b) - 1)))
+                else:
+                    ranges.append(band(cmp('>=', v, -(1 << (b - 1))), cmp('<=', v, (1 << (b - 1)) - 1)))
             else:
                 raise MirError('harness parameter leaf of type %s' % lt)
             vals.append(v)
             order.append((nm, lt))
         init.append(vals)
+    sym_inputs.ranges = ranges
     return init, order
 
 
@@ -339,7 +346,7 @@ class Check:
                 return Fraction(c)
             m.fl = fl
         t0 = time.time()
-        m.run(h, init)
+        m.run(h, init, list(sym_inputs.ranges))
         info = {'paths': m.stats['paths'], 'returned': len(m.returned), 'panicked': len(m.panicked), 'stmts': m.stats['stmts'], 'blocks': m.stats['blocks'],
                 'forks': m.stats['forks'], 'pruned': m.stats['pruned'], 'obligations': len(m.obligations), 'exec_s': round(time.time() - t0, 3), 'opaque': sorted(m.opaque_used)}
         for k in ('paths', 'forks', 'pruned', 'stmts'):
@@ -572,6 +579,7 @@ class Check:
         o = s.opts(h)
         fn = s.fns[h]
         names = debug_names(s.text, h)
+        T_save = None
         _, order = sym_inputs(fn, names)
         rng = random.Random(s.seed * 7919 + hash(h.split('::')[-1]) % 100003)
         vecs = [rand_inputs(order, rng, o) for _ in range(n)]
